@@ -512,6 +512,62 @@ def rule_track(ctx):
             r.violation(key, C.loc(f, bad), "a running total is adjusted (or a node removed) "
                         "before contract_stats() has switched tracking on and populated the "
                         "per-node figures the delta is computed from")
+    # (f) (seed C04_10) a recomputation is reset + refill + flag, all three under the same conditions: a
+    # refill without reset counts every node twice (the stale copy survives later deltas), a reset or a
+    # flag without refill reports an empty total as tracked
+    flagof = {"_flops": "_track_flops", "_write": "_track_write", "_sizes": "_track_size"}
+    for name in ("contract_stats", "total_flops", "total_write", "max_size"):
+        f = tc.lookup(name)
+        if f is None:
+            continue
+
+        def guards(st, f=f):
+            return frozenset((C.unparse(i.test), t) for i, t in C.enclosing_ifs(f, st))
+        for trk, flag in flagof.items():
+            resets, fills, flags = [], [], []
+            for n in walk_local(f.node):
+                if isinstance(n, ast.Assign):
+                    for t in n.targets:
+                        if isinstance(t, ast.Attribute) and dotted(t.value) == "self":
+                            if t.attr == trk:
+                                resets.append(n)
+                            if t.attr == flag and isinstance(n.value, ast.Constant) and n.value.value is True:
+                                flags.append(n)
+                elif isinstance(n, ast.AugAssign) and isinstance(n.target, ast.Attribute) and \
+                        n.target.attr == trk and dotted(n.target.value) == "self" and C.enclosing_loops(f, n):
+                    fills.append(n)
+                elif isinstance(n, ast.Expr) and isinstance(n.value, ast.Call) and \
+                        isinstance(n.value.func, ast.Attribute) and n.value.func.attr == "add" and \
+                        dotted(n.value.func.value) == f"self.{trk}" and C.enclosing_loops(f, n):
+                    fills.append(n)
+            if not fills and not resets:
+                continue
+            key = ctx.key(f, "C04-TRACK", f"recompute:{trk}")
+            if not fills or not resets or not flags:
+                miss = [w_ for w_, l_ in (("reset", resets), ("refill loop", fills), (f"`self.{flag} = True`", flags)) if not l_]
+                r.violation(key, f.loc, f"the recomputation of {trk} lacks its {' and '.join(miss)}")
+                continue
+            gs = {("reset", x): guards(x) for x in resets}
+            gs.update({("refill", x): guards(x) for x in fills})
+            gs.update({("flag", x): guards(x) for x in flags})
+            distinct = set(gs.values())
+            fl3 = ctx.flow(f)
+            dom_ok = all(fl3.cfg.dominates(fl3.cfg.containing(rs, f.module.parents).id,
+                                           fl3.cfg.containing(fi, f.module.parents).id)
+                         for rs in resets[:1] for fi in fills)
+            if len(distinct) == 1 and dom_ok:
+                r.ok(key, C.loc(f, fills[0]), f"reset, refill and flag of {trk} run under the same conditions "
+                     f"{sorted(c for c, _ in next(iter(distinct)))}")
+            else:
+                (ka, xa), ga = [(k_, g_) for k_, g_ in gs.items() if k_[0] == "reset"][0]
+                other = [(k_, g_) for k_, g_ in gs.items() if g_ != ga]
+                (kb, xb), gb = other[0] if other else ((("refill", fills[0])), guards(fills[0]))
+                only_a = sorted(f"{c} is {t}" for c, t in ga - gb)
+                only_b = sorted(f"{c} is {t}" for c, t in gb - ga)
+                r.violation(key, C.loc(f, xb), f"the {kb} of {trk} and its reset run under different conditions "
+                            f"(reset only: {only_a}; {kb} only: {only_b}): in the states where they disagree every "
+                            f"size is entered a second time without the table being emptied (later removals strike "
+                            f"off one copy only, so the old maximum survives), or an emptied total is reported as tracked")
     return r
 
 
